@@ -473,6 +473,7 @@ pub const ALL: &[Shape] = &[
     Shape::FailingTask,
     Shape::CompetingReaders,
     Shape::ChannelInMessage,
+    Shape::ChannelInMessage,
     Shape::QueuedCycle,
     Shape::AliasedRequest,
     Shape::WorkPool,
@@ -572,10 +573,34 @@ pub fn generate(rng: &mut Rng, shapes: &[Shape], print_from_main: bool) -> Workl
         }
         Shape::FanInLockstep => {
             let writers = rng.range(2, 3) as i64;
-            src.push_str(&format!("fn produce(out: channel<{ty}>, w: int, n: int, pad: int, gap: int) {{\n    work(pad)\n    for i in n {{\n        out.write(mk(w, i))\n        work(gap)\n    }}\n}}\n\n"));
+            // triggered: every writer first blocks on a channel of its own until main, without
+            // a host call in between, has told each of them to start. When a blocked reader
+            // resumes relative to the others is then part of what must not depend on slicing.
+            let triggered = rng.chance(1, 2);
+            if triggered {
+                src.push_str(&format!("fn produce(go: channel<int>, out: channel<{ty}>, w: int, n: int, pad: int, gap: int) {{\n    let told = go.read()\n    work(pad + told - 1)\n    for i in n {{\n        out.write(mk(w, i))\n        work(gap)\n    }}\n}}\n\n"));
+            } else {
+                src.push_str(&format!("fn produce(out: channel<{ty}>, w: int, n: int, pad: int, gap: int) {{\n    work(pad)\n    for i in n {{\n        out.write(mk(w, i))\n        work(gap)\n    }}\n}}\n\n"));
+            }
             src.push_str(&format!("let c: channel<{ty}> = channel()\n"));
+            if triggered {
+                for w in 1..=writers {
+                    src.push_str(&format!("let go{w}: channel<int> = channel()\n"));
+                }
+            }
             for w in 1..=writers {
-                src.push_str(&format!("task {{\n    produce(c, {w}, {m}, {}, {})\n}}\n", rng.below(8), rng.below(4)));
+                if triggered {
+                    src.push_str(&format!("task {{\n    produce(go{w}, c, {w}, {m}, {}, {})\n}}\n", rng.below(8), rng.below(4)));
+                } else {
+                    src.push_str(&format!("task {{\n    produce(c, {w}, {m}, {}, {})\n}}\n", rng.below(8), rng.below(4)));
+                }
+            }
+            if triggered {
+                // long enough, sometimes, for every writer to be blocked when the first is told
+                src.push_str(&format!("work({})\n", rng.below(30)));
+                for w in 1..=writers {
+                    src.push_str(&format!("go{w}.write(1)\n"));
+                }
             }
             src.push_str(&maybe_work(rng, ""));
             src.push_str(&format!("for i in {} {{\n    let y = c.read()\n    {}}}\n", writers * m, say(7, "show(y)")));
@@ -715,19 +740,48 @@ pub fn generate(rng: &mut Rng, shapes: &[Shape], print_from_main: bool) -> Workl
         }
         Shape::ChannelInMessage => {
             src.push_str(&format!("type Req = {{\n    val: {ty}\n    reply: channel<string>\n}}\n\n"));
-            src.push_str("fn serve(reqs: channel<Req>, n: int) {\n    for i in n {\n        let r = reqs.read()\n");
-            src.push_str(&maybe_pause(rng, "        "));
-            src.push_str("        r.reply.write(show(touch(r.val, 4)))\n");
-            src.push_str(&maybe_work(rng, "        "));
-            src.push_str("    }\n}\n\n");
+            if rng.chance(2, 3) {
+                // each request is handled in a call of its own: nothing of the previous request
+                // (its reply handle included) is reachable when the next one is received
+                src.push_str("fn serve_one(reqs: channel<Req>) {\n    let r = reqs.read()\n");
+                src.push_str(&maybe_pause(rng, "    "));
+                src.push_str("    r.reply.write(show(touch(r.val, 4)))\n");
+                src.push_str(&maybe_work(rng, "    "));
+                src.push_str("}\nfn serve(reqs: channel<Req>, n: int) {\n    for i in n {\n        serve_one(reqs)\n    }\n}\n\n");
+            } else {
+                src.push_str("fn serve(reqs: channel<Req>, n: int) {\n    for i in n {\n        let r = reqs.read()\n");
+                src.push_str(&maybe_pause(rng, "        "));
+                src.push_str("        r.reply.write(show(touch(r.val, 4)))\n");
+                src.push_str(&maybe_work(rng, "        "));
+                src.push_str("    }\n}\n\n");
+            }
             src.push_str("let reqs: channel<Req> = channel()\n");
             src.push_str(&format!("task {{\n    serve(reqs, {m})\n}}\n"));
-            src.push_str(&format!("for i in {m} {{\n    let mine: channel<string> = channel()\n    let x = mk(0, i)\n    reqs.write(Req(x, mine))\n"));
-            src.push_str(&maybe_pause(rng, "    "));
-            src.push_str(&format!("    {}}}\n", say(0, "mine.read() .. \"/\" .. show(x)").replace("obs(0,", "obs(i,").replace("[0]", "[\" .. i .. \"]")));
-            for i in 0..m {
-                let v = kind.mk(0, i);
-                obs.push((i, format!("{}/{}", v.touch(4).show(), v.show())));
+            let reuse = rng.chance(2, 3);
+            if reuse && rng.chance(1, 2) {
+                // one reply channel, and all requests sent before the first reply is read: the
+                // server finds each next request (with a handle to the same channel) already
+                // queued when it has just dropped everything of the previous one
+                src.push_str(&format!("let mine: channel<string> = channel()\nfor i in {m} {{\n    reqs.write(Req(mk(0, i), mine))\n}}\n"));
+                src.push_str(&maybe_pause(rng, ""));
+                src.push_str(&format!("for i in {m} {{\n    {}}}\n", say(0, "mine.read()").replace("obs(0,", "obs(i,").replace("[0]", "[\" .. i .. \"]")));
+                for i in 0..m {
+                    obs.push((i, kind.mk(0, i).touch(4).show()));
+                }
+            } else {
+                if reuse {
+                    // one reply channel for all requests: the server receives a handle to the
+                    // same channel again and again, each earlier one unreachable by then
+                    src.push_str(&format!("let mine: channel<string> = channel()\nfor i in {m} {{\n    let x = mk(0, i)\n    reqs.write(Req(x, mine))\n"));
+                } else {
+                    src.push_str(&format!("for i in {m} {{\n    let mine: channel<string> = channel()\n    let x = mk(0, i)\n    reqs.write(Req(x, mine))\n"));
+                }
+                src.push_str(&maybe_pause(rng, "    "));
+                src.push_str(&format!("    {}}}\n", say(0, "mine.read() .. \"/\" .. show(x)").replace("obs(0,", "obs(i,").replace("[0]", "[\" .. i .. \"]")));
+                for i in 0..m {
+                    let v = kind.mk(0, i);
+                    obs.push((i, format!("{}/{}", v.touch(4).show(), v.show())));
+                }
             }
         }
         Shape::Handoff => {
@@ -846,6 +900,17 @@ pub fn generate(rng: &mut Rng, shapes: &[Shape], print_from_main: bool) -> Workl
             src.push_str(&format!("type Link = {{\n    val: {ty}\n    next: channel<Link>\n}}\n\n"));
             src.push_str("fn relay(inp: channel<Link>, n: int) {\n    for i in n {\n        let l = inp.read()\n        l.next.write(Link(touch(l.val, 2), inp))\n    }\n}\n\n");
             src.push_str("fn build_cycle(carrier: channel<Link>) {\n    let p: channel<Link> = channel()\n    let q: channel<Link> = channel()\n    p.write(Link(mk(1, 1), q))\n    q.write(Link(mk(1, 2), p))\n    carrier.write(Link(mk(1, 3), p))\n}\n\n");
+            if rng.chance(1, 4) {
+                // only a task that has long finished ever put a handle into a message: two
+                // queues referring to each other, reachable through a carrier nobody reads
+                src.push_str("let carrier: channel<Link> = channel()\ntask {\n    build_cycle(carrier)\n}\n");
+                src.push_str(&format!("work({})\n", rng.range(40, 90)));
+                src.push_str(&maybe_pause(rng, ""));
+                src.push_str(&say(0, "\"quiet\""));
+                obs.push((0, "quiet".to_string()));
+                projection = Projection::MainOnly;
+                drains = false;
+            } else {
             src.push_str("let c: channel<Link> = channel()\nlet d: channel<Link> = channel()\n");
             src.push_str("task {\n    relay(d, 1)\n}\n");
             if rng.chance(2, 3) {
@@ -863,6 +928,7 @@ pub fn generate(rng: &mut Rng, shapes: &[Shape], print_from_main: bool) -> Workl
             obs.push((0, kind.mk(0, 1).show()));
             projection = Projection::MainOnly;
             drains = false;
+            }
         }
         Shape::FailingTask => {
             let ok = rng.range(1, 3) as i64;
